@@ -13,7 +13,8 @@ notifications (connect completed, listening socket readable, data, EOF); `drain`
 until nothing is left — the harness runs loop passes until quiescence after every operation.
 Virtual time only moves with `adv`; the bare connector's retry delays come from a user table
 (`setReconnectDelayCalcFunc`, seconds per failure count, 1 by default and beyond the table; a zero delay makes the
-retry fire in the next `handleExpiredTimers`, see `fireAll`).  User callbacks are scripts (stop / start / disconnect this
+retry fire in the next `handleExpiredTimers`, see `fireAll`; the delay function may call stop(), cleanup() or stop() + start() of its
+own connector: `dAct`, `dRe`).  User callbacks are scripts (stop / start / disconnect this
 connection / send on this connection).  Ghosts: `hist` (callbacks and API marks), `alive`/`freed`
 (TcpConnection objects), `busy` (the object whose disconnected callback is executing), `uaf`
 (an object was deleted while its own callback was executing, or a deleted timer was dereferenced:
@@ -94,6 +95,7 @@ structure Cn where
   deadline : Option Nat := none     -- retry timer
   seq : Nat := 0                    -- when the timer was armed (order among equal deadlines)
   dAct : Option (Nat × Bool) := none  -- the user's delay function calls stop() (false) / cleanup() (true) of its connector when asked about this failure count
+  dRe : Bool := false               -- … and, after its stop(), start() again (the connect() of that start() is refused at once)
   delays : List Nat := []           -- setReconnectDelayCalcFunc: seconds to wait after the k-th failure (k = 1, 2, …); beyond the table and by default: 1
 deriving Repr
 
@@ -292,7 +294,7 @@ def knCleanup (n : N) : N :=
   if n.kn.st = .none then n
   else
     let n := cnStop n .kn
-    { n with kn := { n.kn with st := .none, tries := 0, fails := 0, delays := [], dAct := none } }
+    { n with kn := { n.kn with st := .none, tries := 0, fails := 0, delays := [], dAct := none, dRe := false } }
 
 /-- the failure branch of `enterConnectingState` / `onConnectFail`; returns true when the failure
 callback has to be called (try limit reached) -/
@@ -312,7 +314,18 @@ def cnFail (cfg : Cfg) (n : N) (w : Who) : N × Bool :=
           if cfg.fix then
             -- C06-11: the timer object exists and the state is Delay while the user's function runs; its stop() / cleanup()
             -- ends this wait, nothing is armed afterwards
-            (if cl then knCleanup armed else (cnStop armed .kn).ev .knStop, false)
+            (if cl then knCleanup armed
+             else if c.dRe then
+               -- stop(); start(): the wait is over, a new series begins; its connect() is refused at once, so this is the
+               -- first failure of the new series (not the limit: `tries ≠ 1` on this branch) and the function is asked again
+               -- (about failure 1: no call back, `k ≥ 2` for a function that restarts): the timer of the new series is armed
+               -- for `delayOf 1`.  Back in the outer call the timer is no longer the one it made: nothing more is done.
+               let s := ((cnStop armed .kn).ev .knStop).ev .knStart
+               { s with kn := { s.kn with fails := 1, pend := none, st := .delay, deadline := some (s.now + 1000 * s.kn.delayOf 1), seq := s.tick },
+                        tick := s.tick + 1,
+                        -- (a socket() that fails with EMFILE is a failed attempt just the same, C06-08)
+                        sockFail := s.sockFail - 1 }
+             else (cnStop armed .kn).ev .knStop, false)
           else
             -- as found the function runs first, in the state the failure came from, with no timer object (after a retry) and
             -- no write event (after a late failure): stop() dereferences the null pointer; and whatever it did, the timer
@@ -705,6 +718,7 @@ inductive Op where
   | knInit (tries : Nat) | knStart | knStop | knCleanup
   | knDelay (tbl : List Nat)             -- setReconnectDelayCalcFunc of the bare connector
   | knDelayAct (tbl : List Nat) (k : Nat) (cl : Bool)   -- … with a function that calls stop() / cleanup() at the k-th failure
+  | knDelayRe (tbl : List Nat) (k : Nat)   -- … with a function that calls stop() and start() at the k-th failure (k ≥ 2); that connect() is refused
   | knScript (which : Nat) (s : Script)
   | rawConn | rawSend (d : List Byte) | rawClose | rawHold (b : Bool)
   | adv (ms : Nat)
@@ -757,8 +771,9 @@ def step (cfg : Cfg) (n : N) : Op → N × Bool
         let n := ({ n with kn := { n.kn with fails := 0 } }).ev .knStart
         (knFailCb cfg (cnEnter cfg n .kn), true)
   | .knStop => ((cnStop n .kn).ev .knStop, true)
-  | .knDelay tbl => ({ n with kn := { n.kn with delays := tbl, dAct := none } }, true)
-  | .knDelayAct tbl k cl => ({ n with kn := { n.kn with delays := tbl, dAct := some (k, cl) } }, true)
+  | .knDelay tbl => ({ n with kn := { n.kn with delays := tbl, dAct := none, dRe := false } }, true)
+  | .knDelayAct tbl k cl => ({ n with kn := { n.kn with delays := tbl, dAct := some (k, cl), dRe := false } }, true)
+  | .knDelayRe tbl k => ({ n with kn := { n.kn with delays := tbl, dAct := some (k, false), dRe := true } }, true)
   | .knCleanup => (knCleanup n, true)
   | .knScript w s => (if w = 0 then { n with knFail := s } else { n with knConn := s }, true)
   | .rawConn =>
